@@ -192,6 +192,15 @@ class C02(Prop):
                 ctx.add("resp", [dels(parts)], group=g, stream=s, parts=parts)
         shorts = [b"HTTP/1.1 200 \r\nTransfer-Encoding:chunked\r\n\r\n2\r\nab\r\n0\r\nA:b\r\n c\r\n\r\nZ",
                   b"HTTP/1.1 1 \r\nContent-Length:1\r\n\r\nabc"]
+        # header lines around 1000 bytes (the request default; responses have no line limit), cut at CR|LF
+        for total in (996, 997, 998, 999, 1000, 1001):
+            for tail in (b"Content-Length: 2\r\n\r\nhiZZ", b"\r\n", b"Transfer-Encoding: chunked\r\n\r\n1\r\na\r\n0\r\n\r\nZ"):
+                line = b"X-Long: " + b"v" * (total - 8)
+                s = b"HTTP/1.1 200 OK\r\n" + line + b"\r\n" + tail
+                i = s.find(line) + len(line)
+                for cuts in ([], [i], [i + 1], [i + 2], [i - 1, i + 1]):
+                    parts = G.cut_at(s, cuts)
+                    ctx.add("resp", [dels(parts)], group=("seg", s), stream=s, parts=parts)
         maxn = ctx.n(10, 14)
         for s in shorts:
             free = min(len(s) - 1, maxn - 1)
@@ -447,6 +456,11 @@ class C06(Prop):
         for _ in range(ctx.n(100, 1000)):
             add_decode_case(ctx, damaged=True)
             add_text_case(ctx)
+        # every 0/1-byte body and zlib-header-like 2-byte bodies under each coding
+        tiny = [b""] + [bytes([b]) for b in range(256)] + [bytes([c, rng.randrange(256)]) for c in range(0x08, 0x100, 0x10) for _ in range(4)]
+        for enc in ("deflate", "gzip", "gzip, deflate", "DEFLATE", "deflate, gzip"):
+            for body in tiny:
+                ctx.add("dec", [hdrs_spec([("Content-Encoding", enc)]), hx(body)])
         for v in ["", " ", "\t ", ",", " , ", ",,", "gzip,", ",gzip", "identity", "\u00a0"]:
             for extra in ([], [("Content-Length", "3")], [("Content-Encoding", "")]):
                 ctx.add("dec", [hdrs_spec([("Content-Encoding", v)] + extra), hx(b"abc")])
@@ -493,6 +507,15 @@ class C07(Prop):
                 s = CHUNK_PREFIX + b"2\r\nab\r\n%x\r\n" % declared + body
                 parts = rng.choice(G.schedules(rng, s, 2))
                 ctx.add("resp", [dels(parts)], declared=declared, supplied=supplied, presented=len(s))
+        # both framing headers, either order, large declared length
+        for declared in (0, 5, 10 ** 6, 2 ** 30, 2 ** 31, 2 ** 40, 2 ** 62, 2 ** 63 - 1, 2 ** 63, 2 ** 64 - 1):
+            for hs in (b"Content-Length: %d\r\nTransfer-Encoding: chunked\r\n" % declared,
+                       b"Transfer-Encoding: chunked\r\nContent-Length: %d\r\n" % declared,
+                       b"transfer-encoding: gzip, Chunked\r\ncontent-length: %d\r\n" % declared):
+                for body in (b"", b"5\r\nhello\r\n0\r\n\r\n"):
+                    s = b"HTTP/1.1 200 OK\r\n" + hs + b"\r\n" + body
+                    for parts in ([s], [s[:30], s[30:]], [s[:len(s) - len(body)], body] if body else [s[:-2], s[-2:]]):
+                        ctx.add("resp", [dels(parts)], declared=declared, supplied=len(body), presented=len(s))
 
     def project(self, ctx, cid, canon):
         return canon_no_category(canon)
@@ -655,6 +678,18 @@ class C09(Prop):
                 sfx = rng.choice(SUFFIXES)
                 cuts = sorted(rng.sample(range(1, len(s)), min(len(s) - 1, rng.randint(1, 3)))) if len(s) > 1 else []
                 ctx.add("resp", [dels(G.cut_at(s + sfx, cuts))], group=g, sfx=sfx, stream=s, split=True)
+        # connection-management headers and interim / body-less status codes must not move the boundary
+        for code in (b"200", b"100", b"101", b"102", b"199", b"204", b"304", b"0"):
+            for hs in (b"", b"Connection: close\r\n", b"connection: Close\r\n", b"Connection: keep-alive, close\r\n",
+                       b"Connection: Upgrade\r\nUpgrade: websocket\r\n", b"Connection: close\r\nContent-Length: 3\r\n\r\nabc"[:-7],
+                       b"Proxy-Connection: close\r\n", b"Content-Type: multipart/byteranges\r\n"):
+                s = b"HTTP/1.1 " + code + b" X\r\n" + hs + b"\r\n"
+                if b"Content-Length: 3" in hs:
+                    s += b"abc"
+                g = ("sfx", "resp", s)
+                ctx.add("resp", [dels([s])], group=g, base=True, stream=s)
+                for sfx in rng.sample(SUFFIXES, 3) + [b"HTTP/1.1 200 OK\r\n\r\n", b"x"]:
+                    ctx.add("resp", [dels([s + sfx])], group=g, sfx=sfx, stream=s)
         for s, meta in resp_streams(ctx, ctx.n(300, 3000), p_odd=0.02, mutate_frac=0.1):
             g = ("sfx", "resp", s)
             ctx.add("resp", [dels([s])], group=g, base=True, stream=s)
@@ -791,6 +826,12 @@ class C10(Prop):
             _, _, hs, body = wf_request_value(rng)
             if not any(n.lower() == b"content-length" for n, _ in hs):
                 hs.append((b"Content-Length", b"0"))
+            if rng.random() < 0.25:
+                # Content-Length decides the framing even when a chunked transfer coding is listed
+                hs.insert(rng.randint(0, len(hs)), (rng.choice(G.TE_NAMES), rng.choice(G.TE_VALUES).strip(b" \t")))
+                if rng.random() < 0.5:
+                    body = G.gen_chunked(rng, 0.0)[0]
+                    hs = [(n, v) for n, v in hs if n.lower() != b"content-length"] + [(b"Content-Length", b"%d" % len(body))]
             code = rng.choice([0, 1, 7, 99, 100, 200, 404, 599, 999])
             reason = rng.choice(G.REASONS)
             ctx.add("genresp", [code, hx(reason), hdrs_spec(hs), hx(body)], wf=True)
@@ -1101,11 +1142,40 @@ class C15(Prop):
                     ctx.add("dec", [hdrs_spec(hs), hx(d2)], plain=plain, dmg="flip", fmt=fmt, data=d2)
         for _ in range(ctx.n(100, 1000)):
             add_decode_case(ctx, damaged=True, stack_only=True)
+        # large, highly repetitive content (decoded size >> coded size): the end-of-stream checks still apply
+        line = b"GET /index.html HTTP/1.1 200 1234 \"-\" \"agent\"\n"
+        for size in (65536, 100000) + ((300000,) if ctx.thorough else ()):
+            plain = (line * (size // len(line) + 1))[:size]
+            for fmt, tok in (("gzip", "gzip"), ("zlib", "deflate"), ("raw", "deflate")):
+                data = G.CODERS[fmt](rng, plain)
+                hs = [("Content-Encoding", tok)]
+                ctx.add("dec", [hdrs_spec(hs), hx(data)], plain=plain, dmg=None, fmt=fmt)
+                for cut in sorted(set(range(len(data) - 10, len(data))) | {len(data) // 2}):
+                    ctx.add("dec", [hdrs_spec(hs), hx(data[:cut])], plain=plain, dmg="trunc", fmt=fmt)
+                tail = 8 if fmt == "gzip" else 4 if fmt == "zlib" else 0
+                for i in range(len(data) - tail, len(data)):
+                    d2 = data[:i] + bytes([(data[i] + rng.choice([1, 0x80])) % 256]) + data[i + 1:]
+                    ctx.add("dec", [hdrs_spec(hs), hx(d2)], plain=plain, dmg="integrity", fmt=fmt)
+                for _ in range(4):
+                    i = rng.randrange(len(data) // 2, len(data))
+                    d2 = data[:i] + bytes([data[i] ^ (1 << rng.randrange(8))]) + data[i + 1:]
+                    ctx.add("dec", [hdrs_spec(hs), hx(d2)], plain=plain, dmg="flip", fmt=fmt, data=d2)
 
     def relations(self, ctx, impl):
         for cid, m in ctx.meta.items():
             canon = impl[cid][0]
             f = fields_of(canon)
+            if m["dmg"] is None and m.get("fmt") and m.get("plain") is not None and "stack" not in m:
+                if not canon.startswith("ok") or bytes.fromhex(f.get("b", "")) != m["plain"]:
+                    yield [cid], f"undamaged {m['fmt']} body of {len(m['plain'])} bytes not decoded to its content"
+                continue
+            if canon.startswith("ok") and "stack" in m and m.get("unknown_at") is None and f.get("h") not in (None, "-"):
+                # every listed coding is one the crate undoes: success with one of them still listed means a
+                # layer's failure (its integrity check included) was turned into success
+                left = [bytes.fromhex(nv.split(":")[1]) for nv in f["h"].split(",") if bytes.fromhex(nv.split(":")[0]).lower() == b"content-encoding"]
+                if any(t.strip(b" \t").lower() in (b"gzip", b"deflate") for v in left for t in v.split(b",")):
+                    yield [cid], "success reported although a recognised coding was left undone (a decoder failure was swallowed)"
+                    continue
             if m["dmg"] is None or not canon.startswith("ok"):
                 continue
             fmt = m.get("fmt") or m.get("outer")
@@ -1249,6 +1319,14 @@ class C17(Prop):
             h = b"%x" % rng.randrange(0, 5000)
             i = rng.randint(0, len(h))
             strings.append(h[:i] + rng.choice([b"g", b"+", b"-", b" ", b"x", b"_", b".", b"\t"]) + h[i:])
+        for z in (b"0", b"00", b"0000"):
+            for c in (b"+", b"-", b" ", b"\t", b"x", b"_", b".", b"e", b"\x0b", b"\x0c", b"\r", b"\xc2\xa0", b"\xe2\x80\x83"):
+                for tail in (b"", b"5", b"12", b"200", b"0"):
+                    strings += [z + c + tail, c + z + tail, b"1" + z + c + tail, tail + c + z]
+        for d in (b"200", b"0200", b"7", b"65535", b"65536"):
+            for i in range(len(d) + 1):
+                for c in (b"\t", b"\x0b", b"\x0c", b"\r", b"\n", b"\xc2\x85", b"\xc2\xa0", b"\xe3\x80\x80", b"+", b"\x00"):
+                    strings.append(d[:i] + c + d[i:])
         def liberal(t, base):
             try:
                 return min(int(t.decode("ascii", "ignore").strip().lstrip("+").replace("_", "") or "z", base), 40)
